@@ -7,6 +7,7 @@ import (
 	"go/ast"
 	"go/types"
 	"golang.org/x/tools/go/cfg"
+	"sort"
 	"strings"
 )
 
@@ -443,6 +444,7 @@ func c09d(c *Ctx) {
 	withPre := g.EdgesImplying(func(a Atom) bool { eq, ok := isNilCmp(info, a.E, isPreObj); return ok && eq != a.Val })
 	withoutPre := g.EdgesImplying(func(a Atom) bool { eq, ok := isNilCmp(info, a.E, isPreObj); return ok && eq == a.Val })
 	nIKH := 0
+	ikhWith, ikhWithout := map[int]bool{}, map[int]bool{}
 	for _, s := range f.Find(func(n ast.Node) bool {
 		a, ok := n.(*ast.AssignStmt)
 		if !ok || len(a.Lhs) != 1 {
@@ -464,25 +466,88 @@ func c09d(c *Ctx) {
 			c.Bad(inst, s.Pos(), "the issuer key hash is not over the issuer's SubjectPublicKeyInfo")
 			continue
 		}
-		switch {
-		case isChainIdx(sel.X, 2):
-			if pt, _ := g.ReachableFromEntry(Cut{Edges: withPre}, atSite(s)); pt != nil || len(withPre) == 0 {
-				c.Bad(inst, s.Pos(), "chain[2]'s key is used although no precertificate signing certificate was detected")
-			} else {
-				c.add(Result{Instance: inst, Verdict: Discharged, Sites: []string{s.Pos()}, Detail: "chain[2] only on the preIssuer != nil edge", Witnesses: f.WitEdges(withPre)})
-			}
-		case isChainIdx(sel.X, 1):
-			if pt, _ := g.ReachableFromEntry(Cut{Edges: withoutPre}, atSite(s)); pt != nil || len(withoutPre) == 0 {
-				c.Bad(inst, s.Pos(), "chain[1]'s key is used although chain[1] is a precertificate signing certificate (the real issuer is chain[2])")
-			} else {
-				c.add(Result{Instance: inst, Verdict: Discharged, Sites: []string{s.Pos()}, Detail: "chain[1] only on the preIssuer == nil edge", Witnesses: f.WitEdges(withoutPre)})
-			}
-		default:
-			c.Bad(inst, s.Pos(), "the issuer key hash is taken from "+exprString(sel.X))
+		// which chain element can the hashed certificate be, when a precertificate signing certificate
+		// was detected and when not? (the element is named directly, or held in a variable assigned in
+		// both cases: then the definitions that reach this store in each case are followed)
+		type src struct {
+			idx  int
+			site *Site // the definition, nil when the operand names chain[k] itself
 		}
+		var srcs []src
+		bad := ""
+		chainIdx := func(e ast.Expr) int {
+			for k := 0; k < 4; k++ {
+				if isChainIdx(e, int64(k)) {
+					return k
+				}
+			}
+			return -1
+		}
+		if k := chainIdx(sel.X); k >= 0 {
+			srcs = append(srcs, src{k, nil})
+		} else if vo := objOf(info, sel.X); vo != nil && isLocal(vo) {
+			for _, d := range f.Defs(vo) {
+				ds := f.Find(func(n ast.Node) bool { return n == d.Node })
+				k := -1
+				if d.Kind == DefAssign && d.Idx < 0 {
+					k = chainIdx(d.Rhs)
+				}
+				if k < 0 || len(ds) != 1 {
+					bad = "the issuer key hash is taken from " + exprString(sel.X) + ", which is not always an element of the validated chain"
+					break
+				}
+				srcs = append(srcs, src{k, &ds[0]})
+			}
+		} else {
+			bad = "the issuer key hash is taken from " + exprString(sel.X)
+		}
+		if bad != "" {
+			c.Bad(inst, s.Pos(), bad)
+			continue
+		}
+		isDefOf := func(vo types.Object) func(Point, ast.Node) bool {
+			return func(p Point, n ast.Node) bool { return n != nil && p != s.P && vo != nil && assignsTo(info, n, vo) }
+		}
+		possible := func(world map[Edge]bool) map[int]bool {
+			// world: the edges that contradict the assumed case, cut
+			out := map[int]bool{}
+			for _, sc := range srcs {
+				if sc.site == nil {
+					if pt, _ := g.ReachableFromEntry(Cut{Edges: world}, atSite(s)); pt != nil {
+						out[sc.idx] = true
+					}
+					continue
+				}
+				if pt, _ := g.ReachableFromEntry(Cut{Edges: world}, atSite(*sc.site)); pt == nil {
+					continue
+				}
+				if pt, _ := g.Reach(sc.site.After(), Cut{Edges: world, Stop: isDefOf(objOf(info, sel.X))}, atSite(s)); pt != nil {
+					out[sc.idx] = true
+				}
+			}
+			return out
+		}
+		if len(withPre) == 0 || len(withoutPre) == 0 {
+			c.Bad(inst, s.Pos(), "the choice of the issuer does not depend on whether a precertificate signing certificate was detected")
+			continue
+		}
+		withP, withoutP := possible(withoutPre), possible(withPre)
+		for k := range withP {
+			ikhWith[k] = true
+		}
+		for k := range withoutP {
+			ikhWithout[k] = true
+		}
+		c.add(Result{Instance: inst, Verdict: Discharged, Sites: []string{s.Pos()}, Evals: 2, Detail: fmt.Sprintf("possible chain elements: with a signing certificate %v, without %v", keysInt(withP), keysInt(withoutP)), Witnesses: append(f.WitEdges(withPre), f.WitEdges(withoutPre)...)})
 	}
-	if nIKH != 2 {
-		c.Bad(f.Name+" IssuerKeyHash", tbs[0].Pos(), fmt.Sprintf("expected the two issuer-key-hash cases, found %d", nIKH))
+	okIKH := len(ikhWith) == 1 && ikhWith[2] && len(ikhWithout) == 1 && ikhWithout[1]
+	if nIKH > 0 && !okIKH {
+		c.Bad(f.Name+" IssuerKeyHash choice", tbs[0].Pos(), fmt.Sprintf("the issuer key hash must be chain[2]'s when a precertificate signing certificate was detected and chain[1]'s otherwise; reachable choices: with %v, without %v", keysInt(ikhWith), keysInt(ikhWithout)))
+	} else if nIKH > 0 {
+		c.OK(f.Name+" IssuerKeyHash choice", "chain[2] iff preIssuer != nil, else chain[1]", nil)
+	}
+	if nIKH == 0 {
+		c.Bad(f.Name+" IssuerKeyHash", tbs[0].Pos(), fmt.Sprintf("expected the issuer-key-hash store(s), found %d", nIKH))
 	}
 	// length guards for chain[1] / chain[2]
 	isLen := func(e ast.Expr) bool {
@@ -1047,4 +1112,13 @@ func c09k(c *Ctx) {
 		return
 	}
 	c.add(Result{Instance: inst, Verdict: Discharged, Evals: len(rets), Sites: []string{f.Pos(loop)}, Detail: "every return of the admission function is behind `for issuer := range leaf.Issuers { uploadIssuer }`"})
+}
+
+func keysInt(m map[int]bool) []int {
+	var out []int
+	for k := range m {
+		out = append(out, k)
+	}
+	sort.Ints(out)
+	return out
 }
